@@ -1,4 +1,5 @@
 use std::cell::Cell;
+use std::panic::{catch_unwind, resume_unwind, AssertUnwindSafe};
 
 use crate::handle_unwind::handle_unwind;
 use crate::lockable::{Lockable, RawLock, Sharable};
@@ -79,10 +80,11 @@ pub unsafe fn ordered_try_write(locks: &[&dyn RawLock]) -> bool {
 				if lock.raw_try_write() {
 					locked.set(locked.get() + 1);
 				} else {
-					for lock in &locks[0..i] {
-						// safety: this lock was already acquired
-						lock.raw_unlock_write();
-					}
+					// if the rollback panics, the locks it covers must not be
+					// unlocked a second time by the unwind handler below
+					locked.set(0);
+					// safety: these locks were already acquired
+					attempt_to_recover_writes_from_panic(&locks[0..i]);
 					return false;
 				}
 			}
@@ -108,10 +110,11 @@ pub unsafe fn ordered_try_read(locks: &[&dyn RawLock]) -> bool {
 				if lock.raw_try_read() {
 					locked.set(locked.get() + 1);
 				} else {
-					for lock in &locks[0..i] {
-						// safety: this lock was already acquired
-						lock.raw_unlock_read();
-					}
+					// if the rollback panics, the locks it covers must not be
+					// unlocked a second time by the unwind handler below
+					locked.set(0);
+					// safety: these locks were already acquired
+					attempt_to_recover_reads_from_panic(&locks[0..i]);
 					return false;
 				}
 			}
@@ -232,28 +235,38 @@ pub fn scoped_try_read<'a, L: RawLock + Sharable + ?Sized, Key: Keyable, R>(
 	}
 }
 
-/// Unlocks the already locked locks in order to recover from a panic
+/// Unlocks every one of the already locked locks. If unlocking one of them
+/// panics (that lock then kills itself), the others are still unlocked, and
+/// the first panic is resumed afterwards.
 pub unsafe fn attempt_to_recover_writes_from_panic(locks: &[&dyn RawLock]) {
-	handle_unwind(
-		|| {
-			// safety: the caller assumes that these are already locked
-			locks.iter().for_each(|lock| lock.raw_unlock_write());
-		},
-		// if we get another panic in here, we'll just have to poison what remains
-		|| locks.iter().for_each(|l| l.poison()),
-	)
+	let mut panic = None;
+	for lock in locks {
+		// safety: the caller assumes that these are already locked
+		if let Err(e) = catch_unwind(AssertUnwindSafe(|| lock.raw_unlock_write())) {
+			panic.get_or_insert(e);
+		}
+	}
+
+	if let Some(e) = panic {
+		resume_unwind(e)
+	}
 }
 
-/// Unlocks the already locked locks in order to recover from a panic
+/// Unlocks every one of the already locked locks. If unlocking one of them
+/// panics (that lock then kills itself), the others are still unlocked, and
+/// the first panic is resumed afterwards.
 pub unsafe fn attempt_to_recover_reads_from_panic(locked: &[&dyn RawLock]) {
-	handle_unwind(
-		|| {
-			// safety: the caller assumes these are already locked
-			locked.iter().for_each(|lock| lock.raw_unlock_read());
-		},
-		// if we get another panic in here, we'll just have to poison what remains
-		|| locked.iter().for_each(|l| l.poison()),
-	)
+	let mut panic = None;
+	for lock in locked {
+		// safety: the caller assumes these are already locked
+		if let Err(e) = catch_unwind(AssertUnwindSafe(|| lock.raw_unlock_read())) {
+			panic.get_or_insert(e);
+		}
+	}
+
+	if let Some(e) = panic {
+		resume_unwind(e)
+	}
 }
 
 #[cfg(test)]
